@@ -13,6 +13,7 @@ import (
 	"time"
 
 	"github.com/samsarahq/thunder/graphql"
+	"github.com/samsarahq/thunder/reactive"
 
 	tj "verifharness/internal/tagjson"
 	"verifharness/internal/zoo"
@@ -155,7 +156,21 @@ type schedTracer struct {
 	name  string
 }
 
+// currentRun is what the main loop is about to execute: if the process dies inside thunder, the check re-runs
+// exactly this in a fresh process to see whether the death repeats.
+type currentRun struct {
+	World  int64             `json:"world"`
+	Modes  map[string]string `json:"modes"`
+	Sched  string            `json:"sched"`
+	Text   string            `json:"text"`
+	Fail   map[string]string `json:"fail"`
+	Cached bool              `json:"cached"`
+}
+
 var tracer *schedTracer
+
+// cachedRuns: execute inside a reactive.Rerunner (set per run by the main loop)
+var cachedRuns bool
 
 func (t *schedTracer) emit(e schedEv) {
 	if e.Us == nil && e.Ev == "run" {
@@ -342,7 +357,35 @@ func execute(schema *graphql.Schema, text string, sched graphql.WorkScheduler) (
 	if traced {
 		sched = tracer.begin(tracer.q, tracer.name, sched)
 	}
-	val, err := graphql.NewExecutor(sched).Execute(context.Background(), schema.Query, nil, q)
+	var val interface{}
+	if cachedRuns {
+		// the way the HTTP handler and the websocket server run a query: inside a reactive computation, where
+		// expensive fields go through reactive.Cache keyed by (field, source, selection)
+		done := make(chan struct{})
+		var once sync.Once
+		rr := reactive.NewRerunner(context.Background(), func(ctx context.Context) (interface{}, error) {
+			v, e := graphql.NewExecutor(sched).Execute(ctx, schema.Query, nil, q)
+			once.Do(func() {
+				val, err = v, e
+				close(done)
+			})
+			return nil, nil
+		}, time.Hour, false)
+		select {
+		case <-done:
+		case <-time.After(20 * time.Second):
+			// the zoo's resolvers return at once: a computation that is still not done has deadlocked
+			// (its goroutines are left behind; Stop would wait for them)
+			r.Outcome, r.Err = "hang", "Execute inside a reactive computation did not return within 20 s"
+			if traced {
+				tracer.end(nil)
+			}
+			return
+		}
+		rr.Stop()
+	} else {
+		val, err = graphql.NewExecutor(sched).Execute(context.Background(), schema.Query, nil, q)
+	}
 	if traced {
 		tracer.end(err)
 	}
@@ -381,6 +424,8 @@ func Main(args []string) error {
 	worldSeed := fs.Int64("world", 1, "data graph seed")
 	depth := fs.Int("depth", 3, "")
 	queries := fs.String("queries", "", "ndjson of TLC-generated query ASTs to run instead of random ones")
+	current := fs.String("current", "", "before every run, write what is about to be executed here (read back by -one after a crash)")
+	one := fs.String("one", "", "internal: re-run the single run described in this file 20 times and print its outcomes")
 	schedTrace := fs.String("schedtrace", "", "write the scheduling trace of every run of the main loop here (ExecSched_Trace.tla)")
 	allSched := fs.Int("allsched", 0, "additionally enumerate every schedule of every query depth-first, up to this many per query")
 	if err := fs.Parse(args); err != nil {
@@ -404,6 +449,23 @@ func Main(args []string) error {
 		s := zoo.Build(w, modes)
 		schemas[string(b)] = s
 		return s
+	}
+	if *one != "" {
+		b, err := os.ReadFile(*one)
+		if err != nil {
+			return err
+		}
+		var c currentRun
+		if err := json.Unmarshal(b, &c); err != nil {
+			return err
+		}
+		w.Fail = c.Fail
+		for k := 0; k < 20; k++ {
+			cachedRuns = c.Cached
+			run := execute(schemaFor(c.Modes), c.Text, scheduler(c.Sched, r))
+			fmt.Printf("ONE outcome=%s\n", run.Outcome)
+		}
+		return nil
 	}
 	randModes := func() map[string]string {
 		m := map[string]string{}
@@ -483,7 +545,16 @@ func Main(args []string) error {
 			if tracer != nil {
 				tracer.on, tracer.q, tracer.name = true, rec.I, sn
 			}
+			cachedRuns = j > 0 && r.Intn(3) == 0
+			if *current != "" {
+				b, _ := json.Marshal(currentRun{World: *worldSeed, Modes: modes, Sched: sn, Text: rec.Text, Fail: rec.Fail, Cached: cachedRuns})
+				os.WriteFile(*current, b, 0o644)
+			}
 			run := execute(schemaFor(modes), rec.Text, scheduler(sn, r))
+			if cachedRuns {
+				sn += "+cache"
+			}
+			cachedRuns = false
 			if tracer != nil {
 				tracer.on = false
 			}
